@@ -120,13 +120,13 @@ func TestC26(t *testing.T) {
 		"Redis store must equal the leveldb store's snapshot byte for byte; on a difference both are compared with the committed-blocks model " +
 		"to name the side that is wrong. non-trivial: >= 3 merged blocks, a suffrage change that is not in the last merged block and a " +
 		"by-block-height query strictly between two changes; distinct by (genesis size, cache, step list)")
-	r.Floor(int64(r.N(20, 300)))
+	r.Floor(int64(r.N(12, 300)))
 	r.Assume("miniredis v2.33 stands in for a Redis server (SET/GET/EXISTS, ZADD NX, ZRANGE BYLEX REV LIMIT as documented by Redis)",
 		"the verdict is the difference between the two stores; the model only names the side that is wrong",
 		"permanent databases are read directly through isaac.PermanentDatabase, as the statement says (the center asks them only for what no temp database holds)")
 
 	maxSteps := r.N(18, 26)
-	r.Checks(60, 1500)
+	r.Checks(40, 1500)
 	r.ShrinkTime(60 * time.Second)
 
 	rapid.Check(t, func(rt *rapid.T) {
@@ -298,6 +298,7 @@ func TestC26(t *testing.T) {
 
 		r.Class("compares", int64(ncompares))
 		r.Class("compared-reads", int64(ncompared))
+		r.Class("settle-timeouts", int64(e.SettleTimeouts))
 		r.Case(hist.String(), nontrivial, classes...)
 
 		if nontrivial && r.WantSample() {
